@@ -41,7 +41,7 @@ def joinPath (base ref : Url) : Str :=
   if !ref.path.isEmpty then
     let p :=
       if ref.path.head? = some 47 then ref.path
-      else if base.path.isEmpty then 47 :: ref.path
+      else if base.path.isEmpty then (if !base.netloc.isEmpty then 47 :: ref.path else ref.path)
       else if base.path.getLast? = some 47 then base.path ++ ref.path
       else
         let merged := joinC 47 ((rawParts base).dropLast ++ [[]]) ++ ref.path
@@ -83,47 +83,67 @@ theorem rawParts_rooted (base : Url) (rest : Str) (h : base.path = 47 :: rest) :
   unfold rawParts
   split <;> simp [h]
 
+theorem rawParts_rootless (base : Url) (hn : base.netloc = []) (h : base.path.head? ≠ some 47) :
+    rawParts base = splitOn 47 base.path := by
+  unfold rawParts
+  simp only [hn, List.isEmpty_nil, Bool.not_true, Bool.false_eq_true, if_false]
+  split
+  · rename_i rest hp
+    simp [hp] at h
+  · rfl
+
+/-- the code's un-normalised path for a non-rooted reference path -/
+def codeMerge (base : Url) (rp : Str) : Str :=
+  if base.path.isEmpty then (if !base.netloc.isEmpty then 47 :: rp else rp)
+  else if base.path.getLast? = some 47 then base.path ++ rp
+  else
+    let merged := joinC 47 ((rawParts base).dropLast ++ [[]]) ++ rp
+    if base.path.head? = some 47 then merged.drop 1 else merged
+
 /-- the un-normalised path of the relative branch, for a non-empty non-rooted reference path,
-    is RFC 3986 §5.2.3 `merge` -/
+    is RFC 3986 §5.2.3 `merge` — unless the base has an authority AND a rootless non-empty path -/
 theorem merged_eq (base : Url) (rp : Str)
-    (hbase : base.path = [] ∨ base.path.head? = some 47)
-    (hbase2 : base.netloc = [] → base.path ≠ []) :
-    (if base.path.isEmpty then 47 :: rp
-      else if base.path.getLast? = some 47 then base.path ++ rp
-      else
-        let merged := joinC 47 ((rawParts base).dropLast ++ [[]]) ++ rp
-        if base.path.head? = some 47 then merged.drop 1 else merged)
-      = Rfc.merge (p5 base) rp := by
-  rcases hbase with h | h
-  · have hn : base.netloc ≠ [] := fun hn => hbase2 hn h
-    simp [h, Rfc.merge, p5, hn]
-  · obtain ⟨rest, hr⟩ : ∃ rest, base.path = 47 :: rest := by
-      cases hp : base.path with
-      | nil => simp [hp] at h
-      | cons x xs =>
-        simp only [hp, List.head?_cons, Option.some.injEq] at h
-        exact ⟨xs, by rw [h]⟩
-    have hm : Rfc.merge (p5 base) rp
-        = ((47 :: rest).reverse.dropWhile (· ≠ 47)).reverse ++ rp := by
-      simp [Rfc.merge, p5, hr]
+    (hb : base.netloc = [] ∨ base.path = [] ∨ base.path.head? = some 47) :
+    codeMerge base rp = Rfc.merge (p5 base) rp := by
+  unfold codeMerge
+  by_cases he : base.path = []
+  · by_cases hn : base.netloc = [] <;> simp [he, Rfc.merge, p5, hn]
+  · have hne : base.path.isEmpty = false := by simpa using he
+    have hm : Rfc.merge (p5 base) rp = (base.path.reverse.dropWhile (· ≠ 47)).reverse ++ rp := by
+      simp [Rfc.merge, p5, hne]
     rw [hm]
-    simp only [hr, List.isEmpty_cons, Bool.false_eq_true, if_false, List.head?_cons, if_true]
+    simp only [hne, Bool.false_eq_true, if_false]
     split
     · rename_i hl
-      obtain ⟨init, hi⟩ : ∃ init, 47 :: rest = init ++ [47] := by
+      obtain ⟨init, hi⟩ : ∃ init, base.path = init ++ [47] := by
         rw [List.getLast?_eq_some_iff] at hl
         exact hl
       rw [hi, upToLastSlash init [] (by simp)]
-    · rw [rawParts_rooted base rest hr]
-      exact merged_rooted rest rp
+    · by_cases h : base.path.head? = some 47
+      · obtain ⟨rest, hr⟩ : ∃ rest, base.path = 47 :: rest := by
+          cases hp : base.path with
+          | nil => simp [hp] at h
+          | cons x xs =>
+            simp only [hp, List.head?_cons, Option.some.injEq] at h
+            exact ⟨xs, by rw [h]⟩
+        rw [rawParts_rooted base rest hr]
+        simp only [hr]
+        exact merged_rooted rest rp
+      · have hn : base.netloc = [] := by
+          rcases hb with hb | hb | hb
+          · exact hb
+          · exact absurd hb he
+          · exact absurd hb h
+        rw [rawParts_rootless base hn h]
+        simp only [h, if_false]
+        rw [joinC_dropLast]
 
+/-- `merge` yields a rooted path when the base path is rooted, or empty next to an authority -/
 theorem merge_rooted (base : Url) (rp : Str)
-    (hbase : base.path = [] ∨ base.path.head? = some 47)
-    (hbase2 : base.netloc = [] → base.path ≠ []) :
+    (hbase : (base.path = [] ∧ base.netloc ≠ []) ∨ base.path.head? = some 47) :
     ∃ q, Rfc.merge (p5 base) rp = 47 :: q := by
-  rcases hbase with h | h
-  · have hn : base.netloc ≠ [] := fun hn => hbase2 hn h
-    exact ⟨rp, by simp [h, Rfc.merge, p5, hn]⟩
+  rcases hbase with ⟨h, hn⟩ | h
+  · exact ⟨rp, by simp [h, Rfc.merge, p5, hn]⟩
   · cases hp : base.path with
     | nil => simp [hp] at h
     | cons x xs =>
@@ -135,40 +155,79 @@ theorem merge_rooted (base : Url) (rp : Str)
       rw [this]
       rfl
 
-theorem joinPath_rfc (base ref : Url)
-    (hbase : base.path = [] ∨ base.path.head? = some 47)
-    (hbase2 : base.netloc = [] → base.path ≠ [])
+/-- `merge` introduces no '.' -/
+theorem merge_nodot (base : Url) (rp : Str) (h1 : 46 ∉ base.path) (h2 : 46 ∉ rp) :
+    46 ∉ Rfc.merge (p5 base) rp := by
+  unfold Rfc.merge
+  split
+  · simpa using h2
+  · simp only [p5, List.mem_append, List.mem_reverse, not_or]
+    exact ⟨fun hm => h1 (List.mem_reverse.1 ((List.dropWhile_sublist _).subset hm)), h2⟩
+
+/-- the target path of §5.2.2 before dot-segment removal -/
+def target (base ref : Url) : Str :=
+  if ref.path.head? = some 47 then ref.path else Rfc.merge (p5 base) ref.path
+
+theorem joinPath_eq (base ref : Url)
+    (hb : base.netloc = [] ∨ base.path = [] ∨ base.path.head? = some 47)
     (hp : ref.path ≠ []) :
-    joinPath base ref = Rfc.removeDotSegments
-      (if ref.path.head? = some 47 then ref.path else Rfc.merge (p5 base) ref.path) := by
-  unfold joinPath
+    joinPath base ref
+      = (if mem 46 (target base ref) then normalizePath (target base ref) else target base ref) := by
+  unfold joinPath target
   have hp' : (!ref.path.isEmpty) = true := by simpa using hp
   simp only [hp', if_true]
   by_cases hh : ref.path.head? = some 47
   · simp only [hh, if_true]
-    cases hr : ref.path with
-    | nil => exact absurd hr hp
-    | cons x xs =>
-      simp only [hr, List.head?_cons, Option.some.injEq] at hh
-      subst hh
-      exact guard_rds xs
   · simp only [hh, if_false]
-    have hm := merged_eq base ref.path hbase hbase2
+    have hm := merged_eq base ref.path hb
+    unfold codeMerge at hm
     simp only at hm
     rw [hm]
-    obtain ⟨q, hq⟩ := merge_rooted base ref.path hbase hbase2
-    rw [hq]
+
+theorem target_rooted (base ref : Url)
+    (hbase : (base.path = [] ∧ base.netloc ≠ []) ∨ base.path.head? = some 47 ∨ ref.path.head? = some 47) :
+    ∃ q, target base ref = 47 :: q := by
+  unfold target
+  by_cases hh : ref.path.head? = some 47
+  · simp only [hh, if_true]
+    cases hr : ref.path with
+    | nil => simp [hr] at hh
+    | cons x xs =>
+      simp only [hr, List.head?_cons, Option.some.injEq] at hh
+      exact ⟨xs, by rw [hh]⟩
+  · simp only [hh, if_false]
+    apply merge_rooted
+    rcases hbase with h | h | h
+    · exact Or.inl h
+    · exact Or.inr h
+    · exact absurd h hh
+
+theorem target_nodot (base ref : Url) (h1 : 46 ∉ base.path) (h2 : 46 ∉ ref.path) :
+    46 ∉ target base ref := by
+  unfold target
+  split
+  · exact h2
+  · exact merge_nodot base ref.path h1 h2
+
+/-- the relative branch computes §5.2.2's path whenever the target path is rooted or free of '.' -/
+theorem joinPath_rfc (base ref : Url)
+    (hb : base.netloc = [] ∨ base.path = [] ∨ base.path.head? = some 47)
+    (hp : ref.path ≠ [])
+    (ht : (∃ q, target base ref = 47 :: q) ∨ 46 ∉ target base ref) :
+    joinPath base ref = Rfc.removeDotSegments (target base ref) := by
+  rw [joinPath_eq base ref hb hp]
+  rcases ht with ⟨q, hq⟩ | ht
+  · rw [hq]
     exact guard_rds q
+  · exact guard_nodot _ ht
 
-end JoinLemmas
-
-/-- MAIN: `join` computes RFC 3986 §5.2.2 reference resolution on the encoded components -/
-theorem C14_join_rfc (e : Env) (base ref : Url)
+/-- the whole relative branch, given the path -/
+theorem join_rfc_of_path (e : Env) (base ref : Url)
     (hrel : Gen.usesRelative.contains base.scheme = true)
     (hsch : ref.scheme = [] ∨ ref.scheme = base.scheme)
-    (hbase : base.path = [] ∨ base.path.head? = some 47)
-    (hbase2 : base.netloc = [] → base.path ≠ [])
-    (href : ref.netloc ≠ [] → Rfc.removeDotSegments ref.path = ref.path) :
+    (href : ref.netloc ≠ [] → Rfc.removeDotSegments ref.path = ref.path)
+    (hpath : ref.netloc = [] → ref.path ≠ [] →
+      joinPath base ref = Rfc.removeDotSegments (target base ref)) :
     p5 (join e base ref) = Rfc.resolve (p5 base) (p5 ref) := by
   have hrs : (if (p5 ref).scheme = (p5 base).scheme then [] else (p5 ref).scheme) = ([] : Str) := by
     rcases hsch with h | h <;> simp [h, p5]
@@ -180,13 +239,53 @@ theorem C14_join_rfc (e : Env) (base ref : Url)
   · simp only [hn, List.isEmpty_nil, Bool.not_true, Bool.false_eq_true, if_false]
     by_cases hp : ref.path = []
     · simp [joinPath, hp, fromParts]
-    · have hj := joinPath_rfc base ref hbase hbase2 hp
-      simp only [p5] at hj
+    · have hj := hpath hn hp
+      simp only [target, p5] at hj
       have hp' : ref.path.isEmpty = false := by simpa using hp
       simp only [hp', fromParts, hj]
       split <;> simp [*]
   · have hn' : (!ref.netloc.isEmpty) = true := by simpa using hn
     simp only [hn', if_true, fromParts, href hn]
+
+end JoinLemmas
+
+/-- MAIN: `join` computes RFC 3986 §5.2.2 reference resolution on the encoded components.
+    `hempty` only concerns a base with NEITHER authority NOR path (`URL("")`, `URL("http:")`,
+    `URL("?q")`): there the merged path is the reference path itself, rootless, and the stack
+    algorithm differs from §5.2.4 on rootless paths with dot segments
+    (`C14_empty_base_dotdot_counterexample`). -/
+theorem C14_join_rfc (e : Env) (base ref : Url)
+    (hrel : Gen.usesRelative.contains base.scheme = true)
+    (hsch : ref.scheme = [] ∨ ref.scheme = base.scheme)
+    (hbase : base.path = [] ∨ base.path.head? = some 47)
+    (hempty : base.netloc = [] → base.path = [] → ref.path.head? = some 47 ∨ 46 ∉ ref.path)
+    (href : ref.netloc ≠ [] → Rfc.removeDotSegments ref.path = ref.path) :
+    p5 (join e base ref) = Rfc.resolve (p5 base) (p5 ref) := by
+  apply join_rfc_of_path e base ref hrel hsch href
+  intro _ hp
+  apply joinPath_rfc base ref (Or.inr hbase) hp
+  rcases hbase with h | h
+  · by_cases hn : base.netloc = []
+    · rcases hempty hn h with hr | hr
+      · exact Or.inl (target_rooted base ref (Or.inr (Or.inr hr)))
+      · exact Or.inr (target_nodot base ref (by simp [h]) hr)
+    · exact Or.inl (target_rooted base ref (Or.inl ⟨h, hn⟩))
+  · exact Or.inl (target_rooted base ref (Or.inr (Or.inl h)))
+
+/-- a base WITHOUT authority (its path may be rootless, `a/b`, or empty) and no '.' anywhere in the
+    two paths: nothing is removed on either side and `join` is exactly RFC 3986 §5.2.2.
+    Together with the `C14_rootless_base_counterexample*` this pins the remaining deviation down to
+    dot segments meeting a rootless merged path. -/
+theorem C14_join_rfc_rootless_nodots (e : Env) (base ref : Url)
+    (hrel : Gen.usesRelative.contains base.scheme = true)
+    (hsch : ref.scheme = [] ∨ ref.scheme = base.scheme)
+    (hnet : base.netloc = [])
+    (href : ref.netloc ≠ [] → Rfc.removeDotSegments ref.path = ref.path)
+    (hnodot : 46 ∉ base.path ∧ 46 ∉ ref.path) :
+    p5 (join e base ref) = Rfc.resolve (p5 base) (p5 ref) := by
+  apply join_rfc_of_path e base ref hrel hsch href
+  intro _ hp
+  exact joinPath_rfc base ref (Or.inl hnet) hp (Or.inr (target_nodot base ref hnodot.1 hnodot.2))
 
 /-- the fragment always comes from the reference (in every branch, including pass-through) -/
 theorem C14_fragment_from_ref (e : Env) (base ref : Url) :
@@ -206,21 +305,33 @@ theorem C14_query_inherited_iff (e : Env) (base ref : Url)
 
 /-! ### the hypotheses of `C14_join_rfc` are needed: documented corners -/
 
-/-- `hbase2`: a base WITHOUT authority and with an EMPTY path.  The code prepends '/' to the
-    reference path (`URL("").join(URL("a"))` is `/a`); RFC 3986 §5.2.3 `merge` does so only when the
-    base has an authority, and yields `a`. -/
-theorem C14_empty_base_counterexample (e : Env) :
-    let base := fromParts [] [] [] [] []
-    let ref := fromParts [] [] "a".toStr [] []
-    (join e base ref).path = "/a".toStr ∧ (Rfc.resolve (p5 base) (p5 ref)).path = "a".toStr ∧
+/-- a base WITHOUT authority and with an EMPTY path: RFC 3986 §5.2.3 `merge` prepends '/' only
+    when the base has an authority; since the fix so does the code: `URL("").join(URL("a"))` and
+    `URL("http:").join(URL("a"))` have path `a`, as `Rfc.resolve` says. -/
+theorem C14_empty_base_now_rfc (e : Env) :
+    (let base := fromParts [] [] [] [] []
+     let ref := fromParts [] [] "a".toStr [] []
+     (join e base ref).path = "a".toStr ∧ p5 (join e base ref) = Rfc.resolve (p5 base) (p5 ref)) ∧
+    (let base := fromParts "http".toStr [] [] [] []
+     let ref := fromParts [] [] "a".toStr [] []
+     (join e base ref).path = "a".toStr ∧ p5 (join e base ref) = Rfc.resolve (p5 base) (p5 ref)) := by
+  simp only [join]; decide
+
+/-- `hempty`: base without authority and with an empty path, ROOTLESS reference with a ".." that
+    pops its first segment: the merged path is the rootless `a/..`; the stack algorithm gives the
+    empty path, RFC 3986 §5.2.4 gives `/` (same phenomenon as `C14_rootless_base_counterexample`). -/
+theorem C14_empty_base_dotdot_counterexample (e : Env) :
+    let base := fromParts "http".toStr [] [] [] []
+    let ref := fromParts [] [] "a/..".toStr [] []
+    (join e base ref).path = [] ∧ (Rfc.resolve (p5 base) (p5 ref)).path = "/".toStr ∧
       p5 (join e base ref) ≠ Rfc.resolve (p5 base) (p5 ref) := by
   simp only [join]; decide
 
-/-- same corner with a scheme: base `http:` (no authority, empty path) -/
-theorem C14_empty_base_scheme_counterexample (e : Env) :
-    let base := fromParts "http".toStr [] [] [] []
-    let ref := fromParts [] [] "a".toStr [] []
-    (join e base ref).path = "/a".toStr ∧ (Rfc.resolve (p5 base) (p5 ref)).path = "a".toStr := by
+/-- same corner: `URL("").join(URL("a/../b"))` is `b`, RFC `/b` -/
+theorem C14_empty_base_dotdot_counterexample2 (e : Env) :
+    let base := fromParts [] [] [] [] []
+    let ref := fromParts [] [] "a/../b".toStr [] []
+    (join e base ref).path = "b".toStr ∧ (Rfc.resolve (p5 base) (p5 ref)).path = "/b".toStr := by
   simp only [join]; decide
 
 /-- `hbase`: a base with a ROOTLESS path (`a/b`, only possible without authority) joined with `..`:
@@ -274,7 +385,8 @@ end JoinLemmas
 -- the hypotheses of the main theorem hold for the RFC's base and these references
 example : Gen.usesRelative.contains rfcBase.scheme = true := by decide
 example : rfcBase.path = [] ∨ rfcBase.path.head? = some 47 := by decide
-example : rfcBase.netloc = [] → rfcBase.path ≠ [] := by decide
+example : rfcBase.netloc = [] → rfcBase.path = [] →
+    (rel "../../g" "" "").path.head? = some 47 ∨ 46 ∉ (rel "../../g" "" "").path := by decide
 example : (rel "../../g" "" "").scheme = [] ∨ (rel "../../g" "" "").scheme = rfcBase.scheme := by decide
 example : (rel "../../g" "" "").netloc ≠ [] → Rfc.removeDotSegments (rel "../../g" "" "").path = (rel "../../g" "" "").path := by decide
 
@@ -306,5 +418,19 @@ example (e : Env) : join e (fromParts "mailto".toStr [] "x@y".toStr [] []) (rel 
 -- the main theorem instantiated
 example (e : Env) : p5 (join e rfcBase (rel "../g" "" "f")) = Rfc.resolve (p5 rfcBase) (p5 (rel "../g" "" "f")) :=
   C14_join_rfc e _ _ (by decide) (by decide) (by decide) (by decide) (by decide)
+-- … and with a base that has neither authority nor path (the case the fix is about)
+example (e : Env) : p5 (join e (fromParts "http".toStr [] [] "q".toStr []) (rel "a/b" "" "f"))
+    = Rfc.resolve (p5 (fromParts "http".toStr [] [] "q".toStr [])) (p5 (rel "a/b" "" "f")) :=
+  C14_join_rfc e _ _ (by decide) (by decide) (by decide) (by decide) (by decide)
+example (e : Env) : (join e (fromParts "http".toStr [] [] "q".toStr []) (rel "a/b" "" "f")).path = "a/b".toStr := by
+  simp only [join]; decide
+-- the rootless, dot-free theorem instantiated: base `a/b/c` (no authority), reference `d/e?y`
+example (e : Env) : p5 (join e (fromParts [] [] "a/b/c".toStr [] []) (rel "d/e" "y" ""))
+    = Rfc.resolve (p5 (fromParts [] [] "a/b/c".toStr [] [])) (p5 (rel "d/e" "y" "")) :=
+  C14_join_rfc_rootless_nodots e _ _ (by decide) (by decide) (by decide) (by decide) (by decide)
+example (e : Env) : (join e (fromParts [] [] "a/b/c".toStr [] []) (rel "d/e" "y" "")).path = "a/b/d/e".toStr := by
+  simp only [join]; decide
+-- §5.2.4 on arbitrary dot-free paths
+example : Rfc.removeDotSegments "a//b/c/".toStr = "a//b/c/".toStr := rds_no_dot_any _ (by decide)
 
 end Yarl
